@@ -8,8 +8,10 @@ git merge --no-ff --no-commit "$b" || true
 (cd lean && ls GinjaxVerif/Properties/*.lean | sed 's#/#.#g; s#\.lean$##; s#^#import #' | sort > GinjaxVerif.lean)
 python3 tools/gen_manifest.py
 git add lean/GinjaxVerif.lean MANIFEST.json
+for f in $(git diff --name-only --diff-filter=U | grep "^evidence/" || true); do git checkout --ours "$f"; git add "$f"; done
 if git diff --name-only --diff-filter=U | grep -q .; then
   echo "UNRESOLVED:"; git diff --name-only --diff-filter=U; exit 1
 fi
+for f in $(git diff --name-only --diff-filter=U | grep "^evidence/"); do git checkout --ours "$f"; git add "$f"; done
 git commit -q -m "Merge branch $b"
 git log --oneline | head -1
